@@ -351,10 +351,13 @@ Definition core (k : key) : list mexpr :=
   | KRt _ => []
   end.
 
-(* rows whose bare machine operation leaves the invariant broken for 8/16-bit types *)
+(* rows whose bare machine operation leaves the invariant broken for 8/16-bit types
+   (signed division: MIN / -1 = -MIN does not fit, e.g. i8 -128 / -1 leaves +128 in the 32-bit register;
+   the remainder and the unsigned quotient always fit) *)
 Definition must_norm (k : key) : bool :=
   match k with
   | KBin (Add | Sub | Mul) t => subword t
+  | KBin Div t => subword t && signed t
   | KNeg t => subword t
   | KCast s t => subword t && negb (contained s t)
   | _ => false
